@@ -256,6 +256,9 @@ func (p *Prog) computeModSet(f *ssa.Function, ms *ModSet, visiting map[*ssa.Func
 				mt := x.Map.Type().Underlying().(*types.Map)
 				ms.maps[typeKey(mt)] = mt
 				ms.sites["map:"+types.TypeString(mt, nil)] = append(ms.sites["map:"+types.TypeString(mt, nil)], pos(x))
+				// which field the map was read from, when that is evident: "mapof:T.f"; "mapof:?" when it is not
+				// a local map (parameter, call result, ...), so that field-level frame obligations stay sound
+				ms.sites[mapOrigin(x.Map)] = append(ms.sites[mapOrigin(x.Map)], pos(x))
 			case *ssa.Alloc, *ssa.MakeSlice, *ssa.MakeMap, *ssa.MakeClosure, *ssa.MakeInterface, *ssa.MakeChan:
 				ms.allocates = true
 			case *ssa.Convert:
@@ -368,6 +371,7 @@ func (p *Prog) callMods(c *ssa.CallCommon, ms *ModSet, visiting map[*ssa.Functio
 			if mt, ok := c.Args[0].Type().Underlying().(*types.Map); ok {
 				ms.maps[typeKey(mt)] = mt
 				ms.sites["map:"+types.TypeString(mt, nil)] = append(ms.sites["map:"+types.TypeString(mt, nil)], pos)
+				ms.sites[mapOrigin(c.Args[0])] = append(ms.sites[mapOrigin(c.Args[0])], pos)
 			}
 		}
 		return
@@ -753,4 +757,82 @@ func (p *Prog) globalFuncInit(v ssa.Value) *ssa.Function {
 		return nil
 	}
 	return res
+}
+
+// mapOrigin: "mapof:T.f" if the map value is loaded from field f of struct T, "mapof:local" if it was made in
+// this function, "mapof:?" otherwise.
+func mapOrigin(v ssa.Value) string {
+	for depth := 0; depth < 8; depth++ {
+		switch x := v.(type) {
+		case *ssa.UnOp:
+			if fa, ok := x.X.(*ssa.FieldAddr); ok {
+				return "mapof:" + storeTarget(fa)
+			}
+			if fv, ok := x.X.(*ssa.FreeVar); ok {
+				// captured variable: what the enclosing function stores into it
+				fn := fv.Parent()
+				if fn == nil || fn.Parent() == nil {
+					return "mapof:?"
+				}
+				idx := -1
+				for i, f := range fn.FreeVars {
+					if f == fv {
+						idx = i
+					}
+				}
+				res := "mapof:?"
+				for _, b := range fn.Parent().Blocks {
+					for _, in := range b.Instrs {
+						if mc, ok := in.(*ssa.MakeClosure); ok && mc.Fn == fn && idx >= 0 && idx < len(mc.Bindings) {
+							if a, ok := mc.Bindings[idx].(*ssa.Alloc); ok {
+								res = "mapof:local"
+								for _, r := range *a.Referrers() {
+									if st, ok := r.(*ssa.Store); ok && st.Addr == a {
+										if o := mapOrigin(st.Val); o != "mapof:local" {
+											return o
+										}
+									}
+								}
+							}
+						}
+					}
+				}
+				return res
+			}
+			if a, ok := x.X.(*ssa.Alloc); ok {
+				// local variable holding a map: look at what is stored into it
+				for _, r := range *a.Referrers() {
+					if st, ok := r.(*ssa.Store); ok && st.Addr == a {
+						if o := mapOrigin(st.Val); o != "mapof:local" {
+							return o
+						}
+					}
+				}
+				return "mapof:local"
+			}
+			return "mapof:?"
+		case *ssa.MakeMap:
+			return "mapof:local"
+		case *ssa.Field:
+			if st, ok := x.X.Type().Underlying().(*types.Struct); ok {
+				return "mapof:" + types.TypeString(x.X.Type(), func(p *types.Package) string { return p.Name() }) + "." + st.Field(x.Field).Name()
+			}
+			return "mapof:?"
+		case *ssa.Phi:
+			res := "mapof:local"
+			for _, e := range x.Edges {
+				if o := mapOrigin(e); o != "mapof:local" {
+					res = o
+				}
+			}
+			return res
+		case *ssa.ChangeType:
+			v = x.X
+		case *ssa.Const:
+			return "mapof:local"
+		default:
+			return "mapof:?"
+		}
+	}
+	return "mapof:?"
 }
